@@ -1,5 +1,8 @@
 import Netpol.Proofs.FormatLayer
 import Netpol.Proofs.FormatExposure
+import Netpol.Proofs.FormatDotX
+import Netpol.Proofs.FormatEngine
+import Netpol.Proofs.FormatDiffEngine
 import Netpol.Properties.C09
 import Netpol.Properties.C05
 /-! C08 (format layer) — the output does not depend on the order of the computed entries.
@@ -24,9 +27,25 @@ list gives the same string — and under which hypotheses:
 * list with exposure analysis, txt / json / csv / md: the exposure rows are sorted by the same total keys (by source for
   the egress section, by destination for the ingress section), the unprotected-workload lines as strings, the column
   width of the txt section is a maximum: no hypothesis (`list_exposure_order_independent`); the Go code collects the
-  exposed peers from two Go maps. Not covered: the dot output with exposure results (`listDotX` threads the
-  `visited` sets of representative peers and the choice between a real and a representative namespace cluster through
-  the list of exposed peers). -/
+  exposed peers from two Go maps.
+* list with exposure analysis, dot: `addExposureOutputData` threads state through the exposed peers — the `visited` set of
+  representative peers, and the map `nsPeers`, which it both extends (an exposed peer not drawn yet) and consults (a
+  representative peer whose namespace label is a key of `nsPeers` is drawn in that real cluster, otherwise in a
+  representative cluster). `list_exposure_dot_order_independent` (`Proofs/FormatDotX.lean`): the output is a function of
+  the multiset of exposed peers when (1) peer strings determine the peers, (2) every exposed peer was already visited
+  for the connections part (`ExposedVisited`), (3) representative-peer strings `POD_in_NS` determine the two labels
+  (`RepsConsistent`). Hypothesis (2) cannot be dropped for the formatter as a function
+  (`exposure_dot_order_dependence_when_unvisited`: with an unvisited exposed peer of namespace `ns1` and another peer
+  exposed to a representative peer of `ns1`, one order draws one cluster `cluster_ns1`, the other order two). The
+  analyzer always satisfies (2): exposed peers are focus workloads, and `formatDOT.peersList` holds all of them, so this
+  is a latent order dependence of `formatDOT.writeOutput`, not one of the tool's output.
+* the hypotheses discharged for the model's own computations: `report_list_order_independent` (the whole report of
+  `getConnectionsList`, ingress-controller lines included: one line per pair of peer strings and consistent peers, as
+  long as no peer of the input has the string `{ingress-controller}` itself — `Proofs/FormatEngine.lean`), and
+  `computed_diff_order_independent` / `reports_diff_order_independent` (`DiffPeersConsistent` holds of every diff
+  computed by `diffConns`: the colour of a node is a function of its peer — `#008000` iff it is a workload that is absent
+  from the first report's peers, `red` iff absent from the second's — `Proofs/FormatDiffEngine.lean`; what remains a
+  hypothesis is that a peer string means the same workload in both directories, `PeersOK`). -/
 namespace Netpol.Properties.C08.Format
 open Netpol Netpol.Format Netpol.Engine List
 
@@ -138,6 +157,26 @@ theorem list_exposure_order_independent (f : String) (hf : f ≠ "dot") {c c' : 
   rw [listJsonX_perm h hx, listCsvX_perm h hx, listMdX_perm h hx, listTxtX_perm h hx, hd]
   simp
 
+/-- dot with exposure results: independent of the order of the connections, of the peers and of the exposed peers -/
+theorem list_exposure_dot_order_independent {c c' : List Conn} {p p' : List PeerInfo} {xs xs' : List XPeerF}
+    (hc : PeersConsistent c p) (hv : ExposedVisited c p xs) (hr : RepsConsistent xs) (h : c ~ c') (hp : p ~ p') (hx : xs ~ xs') :
+    listToStringX "dot" c p xs = listToStringX "dot" c' p' xs' := by
+  have e : ∀ (c : List Conn) (p : List PeerInfo) (xs : List XPeerF), listToStringX "dot" c p xs = listDotX c p xs := by
+    intro c p xs; simp [listToStringX]
+  rw [e, e]
+  exact listDotX_perm hc hv hr h hp hx
+
+/-- … but as a function of its arguments the formatter depends on the order of the exposed peers when one of them was
+not visited before: the two orders of `[cexA, cexB]` give a graph without and a graph with a representative cluster -/
+theorem exposure_dot_order_dependence_when_unvisited :
+    nsGroups (dotXWalk [] [cexB.peer] [cexA, cexB]).repMembers "red2" = [] ∧
+    nsGroups (dotXWalk [] [cexB.peer] [cexB, cexA]).repMembers "red2" ≠ [] ∧
+    ∀ xs, listToStringX "dot" [] [cexB.peer] xs =
+      dotXRender [] (listVisited [] [cexB.peer]) (dotXWalk [] [cexB.peer] xs) :=
+  ⟨order_dependence_when_unvisited.1, order_dependence_when_unvisited.2, fun xs => by
+    have : listToStringX "dot" [] [cexB.peer] xs = listDotX [] [cexB.peer] xs := by simp [listToStringX]
+    rw [this]; exact listDotX_walk _ _ _⟩
+
 -- ------------------------------------------------------------------------------------------
 -- diff
 
@@ -162,6 +201,41 @@ theorem diff_order_independent (f ref1 ref2 : String) {ds ds' : List DConn} (hc 
     diffToString f ref1 ref2 ds = diffToString f ref1 ref2 ds' := by
   unfold diffToString
   rw [diffIsEmpty_perm h, diffCsv_perm ref1 ref2 h, diffMd_perm ref1 ref2 h, diffDot_perm ref1 hc h, diffTxt_perm ref1 ref2 h]
+
+-- ------------------------------------------------------------------------------------------
+-- the hypotheses discharged for the model's own computations
+
+/-- the whole report of `getConnectionsList` — the ingress-controller lines (collected from a Go map) included — prints
+the same in every format whatever the order of its lines and of the peers handed to the dot formatter -/
+theorem report_list_order_independent (f : String) {objs : List Obj} {focus : String} {stop : Bool} {r : Report}
+    (h : report objs focus stop = .ok r) (hic : ∀ p ∈ r.peers, p.str ≠ ingressPodString)
+    {entries' : List Entry} {dotPeers' : List LPeer} (hperm : r.entries ~ entries') (hperm' : r.dotPeers ~ dotPeers') :
+    listToString f (r.entries.map Conn.ofEntry) (r.dotPeers.map PeerInfo.ofLPeer) =
+      listToString f (entries'.map Conn.ofEntry) (dotPeers'.map PeerInfo.ofLPeer) :=
+  list_entries_order_independent f (report_peers_consistent h hic) hperm hperm'
+
+/-- … and it has one line per ordered pair of peer strings -/
+theorem report_entries_keys_distinct {objs : List Obj} {focus : String} {stop : Bool} {r : Report}
+    (h : report objs focus stop = .ok r) (hic : ∀ p ∈ r.peers, p.str ≠ ingressPodString) :
+    ConnKeysDistinct (r.entries.map Conn.ofEntry) := report_keys_distinct h hic
+
+/-- every format of the computed diff (`diffConns` = `computeDiffFromConnlistResults` + `diffConnectionsLists`, whose
+result is collected from a Go map): no `DiffPeersConsistent` hypothesis any more. `W`: the workloads of the two
+reports; `PeersOK W`: a peer string means one workload; `EntriesOK`: the ends of the lines of a report are IP blocks,
+the pseudo peer of the ingress controller, or workloads among the report's peers. -/
+theorem computed_diff_order_independent (f ref1 ref2 : String) {W : List LPeer} (hW : PeersOK W)
+    {e1 e2 : List Entry} {peers1 peers2 : List LPeer} (h1 : EntriesOK W peers1 e1) (h2 : EntriesOK W peers2 e2)
+    {ds' : List DConn} (h : diffConns e1 e2 peers1 peers2 ~ ds') :
+    diffToString f ref1 ref2 (diffConns e1 e2 peers1 peers2) = diffToString f ref1 ref2 ds' :=
+  diff_order_independent f ref1 ref2 (diffConns_peers_consistent hW h1 h2) h
+
+/-- the diff of two reports of the model (what `fmt`'s `dout` prints): `EntriesOK` is a theorem (`report_entries_ok`) -/
+theorem reports_diff_order_independent (f ref1 ref2 : String) {objs1 objs2 : List Obj} {focus1 focus2 : String}
+    {stop1 stop2 : Bool} {r1 r2 : Report} (h1 : report objs1 focus1 stop1 = .ok r1) (h2 : report objs2 focus2 stop2 = .ok r2)
+    (hW : PeersOK (icPeer :: (r1.peers ++ r2.peers)))
+    {ds' : List DConn} (h : diffConns r1.entries r2.entries r1.peers r2.peers ~ ds') :
+    diffToString f ref1 ref2 (diffConns r1.entries r2.entries r1.peers r2.peers) = diffToString f ref1 ref2 ds' :=
+  diff_order_independent f ref1 ref2 (reports_diff_peers_consistent h1 h2 hW) h
 
 -- ------------------------------------------------------------------------------------------
 -- the hypotheses are satisfiable (the report and the diff of `Properties/C09.lean`), and needed
@@ -190,9 +264,50 @@ example (f : String) (hf : f ≠ "dot") :
     listToStringX f exConns [wlA, wlB] exExposed = listToStringX f exConns.reverse [wlB, wlA] exExposed.reverse :=
   list_exposure_order_independent f hf _ _ (reverse_perm exConns).symm (reverse_perm exExposed).symm
 
+open Properties.C09 in
+example : listToStringX "dot" exConns [wlA, wlB] exXs = listToStringX "dot" exConns.reverse [wlB, wlA] exXs.reverse :=
+  list_exposure_dot_order_independent (by decide) (by unfold ExposedVisited; decide) (by unfold RepsConsistent KeyInj; decide)
+    (reverse_perm exConns).symm (by decide) (reverse_perm exXs).symm
+
 /-- the same pair twice with different connections: the rows still have one order -/
 example : listToString "csv" [⟨Properties.C09.wlA, Properties.C09.wlB, "TCP 80"⟩, ⟨Properties.C09.wlA, Properties.C09.wlB, "UDP 53"⟩] [] =
     listToString "csv" [⟨Properties.C09.wlA, Properties.C09.wlB, "UDP 53"⟩, ⟨Properties.C09.wlA, Properties.C09.wlB, "TCP 80"⟩] [] :=
   list_csv_order_independent _ _ (Perm.swap _ _ _)
+
+/-- the hypotheses of `computed_diff_order_independent` hold of two small reports (a workload lost, one new, an IP
+block, an ingress-controller line) -/
+def exPodA : Pod := { ns := "default", name := "a", labels := [], ports := [] }
+def exPodB : Pod := { ns := "default", name := "b", labels := [], ports := [] }
+def exPodC : Pod := { ns := "default", name := "c", labels := [], ports := [] }
+def exLA : LPeer := .wl "default/a[Pod]" exPodA
+def exLB : LPeer := .wl "default/b[Pod]" exPodB
+def exLC : LPeer := .wl "default/c[Pod]" exPodC
+def exW : List LPeer := [icPeer, exLA, exLB, exLC]
+
+theorem exW_ok : PeersOK exW := by
+  refine ⟨by decide, ?_, ?_⟩
+  · intro p hp _ r
+    simp only [exW, mem_cons, not_mem_nil, or_false] at hp
+    rcases hp with rfl | rfl | rfl | rfl
+    · exact Structure.workloadName_ne_ipRange IngressA.ingressPod r
+    · exact Structure.workloadName_ne_ipRange exPodA r
+    · exact Structure.workloadName_ne_ipRange exPodB r
+    · exact Structure.workloadName_ne_ipRange exPodC r
+  · intro p hp
+    simp only [exW, mem_cons, not_mem_nil, or_false] at hp
+    rcases hp with rfl | rfl | rfl | rfl <;> (unfold DiffLayer.NoSemi; decide)
+
+example (cs : ConnSet) (f : String) (ds' : List DConn)
+    (h : diffConns [⟨exLA, exLB, cs⟩, ⟨exLA, .ip ⟨0, 4294967295⟩, cs⟩, ⟨icPeer, exLA, cs⟩] [⟨exLA, exLC, cs⟩, ⟨.ip ⟨0, 4294967295⟩, exLA, cs⟩]
+      [exLA, exLB] [exLA, exLC] ~ ds') :
+    diffToString f "dir1" "dir2" (diffConns [⟨exLA, exLB, cs⟩, ⟨exLA, .ip ⟨0, 4294967295⟩, cs⟩, ⟨icPeer, exLA, cs⟩]
+      [⟨exLA, exLC, cs⟩, ⟨.ip ⟨0, 4294967295⟩, exLA, cs⟩] [exLA, exLB] [exLA, exLC]) = diffToString f "dir1" "dir2" ds' := by
+  refine computed_diff_order_independent f _ _ exW_ok ?_ ?_ h
+  · intro e he
+    simp only [mem_cons, not_mem_nil, or_false] at he
+    rcases he with rfl | rfl | rfl <;> (refine ⟨?_, ?_⟩ <;> first | exact Or.inl rfl | exact Or.inr ⟨by simp [exW], rfl, by dsimp only; decide⟩)
+  · intro e he
+    simp only [mem_cons, not_mem_nil, or_false] at he
+    rcases he with rfl | rfl <;> (refine ⟨?_, ?_⟩ <;> first | exact Or.inl rfl | exact Or.inr ⟨by simp [exW], rfl, by dsimp only; decide⟩)
 
 end Netpol.Properties.C08.Format
